@@ -106,7 +106,7 @@ impl Default for DocOpts {
     }
 }
 
-pub const HTML_NAMES: &[&str] = &["div", "span", "p", "b", "a", "li", "ul", "h1", "section", "i", "custom-element", "averyveryverylongtagname", "x1", "DIV", "Span", "em", "td"];
+pub const HTML_NAMES: &[&str] = &["div", "span", "p", "b", "a", "li", "ul", "h1", "section", "i", "custom-element", "averyveryverylongtagname", "x1", "DIV", "Span", "em", "td", "custom-elements", "averyveryverylongtagnam", "di", "divv"];
 pub const VOID_NAMES: &[&str] = &["br", "img", "input", "hr", "wbr", "meta", "link", "col", "embed", "area", "base", "source", "track", "param", "keygen", "basefont", "bgsound", "BR", "Img"];
 pub const RAW_NAMES: &[(&str, &str)] = &[
     ("script", "ScriptData"), ("style", "RawText"), ("title", "RCData"), ("textarea", "RCData"), ("xmp", "RawText"), ("iframe", "RawText"), ("noembed", "RawText"), ("noframes", "RawText"), ("noscript", "RawText"), ("STYLE", "RawText"), ("Title", "RCData"),
@@ -115,6 +115,18 @@ pub const SVG_NAMES: &[&str] = &["g", "path", "circle", "rect", "defs", "use", "
 pub const MATH_NAMES: &[&str] = &["mrow", "mfrac", "msup", "msqrt", "mstyle", "semantics"];
 pub const ATTR_NAMES: &[&str] = &["id", "class", "href", "title", "data-x", "x", "y", "ABC", "Class", "ID", "rel", "name"];
 pub const ATTR_VALUES: &[&str] = &["a", "b", "a b", "ab", "AB", "", "a-b", "x y z", "abc", "b a", "-", "a-", "é", "1", "\u{feff}a", "\u{fe}\u{ff}b"];
+/// A plain attribute value: from the pool, or (one in three) composed from a tiny alphabet so
+/// that values contain repeated prefixes and near-misses of the selectors' operands
+/// (`aab` vs `ab`, `a a` vs `a`, `a-a-b`).
+pub fn attr_value(t: &mut Tape<'_>) -> String {
+    if t.chance(1, 3) {
+        let n = t.range(0, 6);
+        (0..n).map(|_| *t.pick(&['a', 'b', 'a', 'b', 'A', ' ', '-'])).collect()
+    } else {
+        t.pick(ATTR_VALUES).to_string()
+    }
+}
+
 const ODD_ATTR_NAMES: &[&str] = &["a\"b", "a'b", "a<b", "=x", "é", "x:y", "a_b", "1", "\"", "日"];
 const ODD_UNQUOTED: &[&str] = &["c/", "a=b", "a'b", "a\"b", "a<b", "`", "é", "/", "x/y", "&amp;", "a&b"];
 const ODD_QUOTED: &[&str] = &["a>b", " a ", "/>", "a=b", "x\ny", "<b>", "&quot;", "a\tb", "é😀"];
@@ -225,10 +237,10 @@ impl<'a, 't> Gen<'a, 't> {
             let name = if self.o.odd_attrs && self.t.chance(1, 8) { self.t.pick(ODD_ATTR_NAMES).to_string() } else { self.t.pick(ATTR_NAMES).to_string() };
             let v = match self.t.below(if self.o.odd_attrs { 8 } else { 6 }) {
                 0 => None,
-                1 | 2 => Some((b'"', self.t.pick(ATTR_VALUES).to_string())),
-                3 => Some((b'\'', self.t.pick(ATTR_VALUES).to_string())),
+                1 | 2 => Some((b'"', attr_value(self.t))),
+                3 => Some((b'\'', attr_value(self.t))),
                 4 | 5 => {
-                    let v = self.t.pick(ATTR_VALUES).to_string();
+                    let v = attr_value(self.t);
                     if v.is_empty() || v.contains(' ') { Some((b'"', v)) } else { Some((0, v)) }
                 }
                 6 => Some((0, self.t.pick(ODD_UNQUOTED).to_string())),
